@@ -709,9 +709,20 @@ class Context:
                     return {join_pairs(k): join_pairs(v) for k, v in value.items()}
                 return value
 
+            def build_object(pairs):
+                # keys are joined while the members are taken in text order, so that of
+                # two spellings of one key the later member wins (as for any duplicate)
+                obj = {}
+                for key, value in pairs:
+                    obj[join_pairs(key)] = value
+                return obj
+
             try:
                 py_value = json.loads(
-                    text, parse_constant=reject_constant, parse_int=parse_int
+                    text,
+                    parse_constant=reject_constant,
+                    parse_int=parse_int,
+                    object_pairs_hook=build_object,
                 )
                 return ctx._to_js(join_pairs(py_value))
             except json.JSONDecodeError as e:
